@@ -17,6 +17,21 @@ func concatLeaves(v ssa.Value) []ssa.Value {
 	if bo, ok := v.(*ssa.BinOp); ok && bo.Op == token.ADD {
 		return append(concatLeaves(bo.X), concatLeaves(bo.Y)...)
 	}
+	// strings.Join([]string{a, b, …}, sep): a + sep + b + sep + …
+	if call, ok := v.(*ssa.Call); ok && calleeIs(call, "strings", "", "Join") && len(call.Call.Args) == 2 {
+		if _, isConst := call.Call.Args[1].(*ssa.Const); isConst {
+			if elems, ok := varargElems(call.Call.Args[0]); ok && len(elems) > 0 {
+				var out []ssa.Value
+				for i, e := range elems {
+					if i > 0 {
+						out = append(out, call.Call.Args[1])
+					}
+					out = append(out, concatLeaves(e)...)
+				}
+				return out
+			}
+		}
+	}
 	return []ssa.Value{v}
 }
 
@@ -128,11 +143,37 @@ func checkC17(c *Ctx) {
 		c.Fail("C17.R5", "anchor:HMACAuth.Verify", "", "anchor not found")
 	}
 	// the signing step: function in dispatcher that calls hmac.New and sets request headers
+	// (helpers of the package are part of it, except the version selector — (string, error) of two parameters — and
+	// the secret loader — ([]byte, error) —, which the rule refers to by role; of the functions that contain the step
+	// after expansion, the smallest is the step itself)
+	keepSign := func(callee *ssa.Function) bool {
+		r := callee.Signature.Results()
+		if r.Len() != 2 {
+			return false
+		}
+		if r.At(0).Type().String() == "string" && callee.Signature.Params().Len() == 2 {
+			return true
+		}
+		return r.At(0).Type().String() == "[]byte"
+	}
 	var sign *ssa.Function
+	fnSize := func(f *ssa.Function) int {
+		k := 0
+		for _, b := range f.Blocks {
+			k += len(b.Instrs)
+		}
+		return k
+	}
 	for _, fn := range p.FuncsInPkg("dispatcher") {
-		if len(allCalls(fn, func(ci ssa.CallInstruction) bool { return calleeIs(ci, "crypto/hmac", "", "New") })) > 0 &&
-			len(allCalls(fn, func(ci ssa.CallInstruction) bool { return calleeIs(ci, "net/http", "Header", "Set") })) >= 2 {
-			sign = fn
+		if fn.Parent() != nil {
+			continue
+		}
+		v := p.ViewKeeping(fn, keepSign)
+		if len(allCalls(v, func(ci ssa.CallInstruction) bool { return calleeIs(ci, "crypto/hmac", "", "New") })) > 0 &&
+			len(allCalls(v, func(ci ssa.CallInstruction) bool { return calleeIs(ci, "net/http", "Header", "Set") })) >= 2 {
+			if sign == nil || fnSize(v) < fnSize(sign) {
+				sign = v
+			}
 		}
 	}
 	if sign == nil {
@@ -302,8 +343,15 @@ func checkC17(c *Ctx) {
 	c.Check(nOK >= 1, "C17.R2", name+":success-returns", p.Pos(sign.Pos()), fmt.Sprintf("%d signing success return(s)", nOK), "no success return found")
 	// Do behind signing ok
 	for _, fn := range p.FuncsInPkg("dispatcher") {
+		if fn.Parent() == nil {
+			// the request may be built and signed in a helper of the sending function; the signing step stays a call
+			fn = p.ViewKeeping(fn, func(callee *ssa.Function) bool { return callee == p.Orig(sign) })
+		}
 		for _, do := range allCalls(fn, func(ci ssa.CallInstruction) bool { return calleeIs(ci, "net/http", "Client", "Do") }) {
-			calls := allCalls(fn, func(ci ssa.CallInstruction) bool { return ci.Common().StaticCallee() == sign })
+			if len(p.InlinedFrom(do)) > 0 {
+				continue
+			}
+			calls := allCalls(fn, func(ci ssa.CallInstruction) bool { return ci.Common().StaticCallee() == p.Orig(sign) })
 			okE, _, _ := GuardEdges(fn, calls, ErrNil)
 			okp, path := p.MustPass(fn, do, okE)
 			if okp && len(okE) > 0 {
